@@ -227,6 +227,7 @@ REP = {
     "x0-on-bound": (2.0, -2.0, -1.0, 1.0, 2.0),
     "inv-order": (0.0, -2.0, 1.0, -1.0, 2.0),
     "inv-half": (0.0, -2.0, -1.0, 1.0, np.inf),
+    "inv-half-upper": (0.0, -np.inf, -1.0, 1.0, 2.0),
     "inv-x0out": (5.0, -2.0, -1.0, 1.0, 2.0),
     "inv-fixed": (1.0, 1.0, 1.0, 1.0, 1.0),
     "inv-plaus-equal": (0.0, -2.0, 1.0, 1.0, 2.0),
